@@ -571,5 +571,8 @@ func (ex *Exec) lockOp(p Ptr, op string) {
 }
 
 func (ex *Exec) reportLock(msg, label string) {
+	if !ex.sh.lockCheck {
+		return // lock discipline is C32's property; other checks do not report it
+	}
 	ex.recordViolation("lock", label, msg, nil)
 }
